@@ -35,7 +35,7 @@ CHECKS = {
  "C13": dict(cat="model_checking", ref="§6 C13",
    technique="TLA+ specs WsWindowCore / StreamFramingCore (dictionary synchronisation, trimming, writer exclusivity, length-prefix framing) model-checked by TLC; TLC enumerates mode x level x window-bits x message-class sequences replayed lock-step on a real websocket.New pair (and quic stream transport over an in-memory connection) with window buffers, counters, raw frames and an independent compress/flate decoder compared by the TLA+ monitor MonC13; the same model applied by MonC13r to the real transport over the three real WebSocket backends (loopback echo server) and to reliable + datagram writers running concurrently on a real quic transport",
    text="Stateful part decided by the model: DictionariesEqual, WindowIsSuffix, ReadEqualsWrite, NoInterleave, NoReaderRefused (reader contract of the backends), NoCorruptMessage (encoders of stream and datagram writers) for all message-length class sequences to depth 6; byte fidelity of DEFLATE is the replay oracle only.",
-   note="WebTransport transport and quic-go's network path are not exercised; the in-memory Conn serialises Writer() like the default coder backend and keeps the strict (coder, nhooyr) or lenient (gorilla) reader contract; the real backends run over loopback TCP with messages below 32 KiB."),
+   note="The QUIC transport runs over an in-memory connection (quic-go's network path is exercised only under the WebTransport transport, over loopback); the in-memory Conn serialises Writer() like the default coder backend and keeps the strict (coder, nhooyr) or lenient (gorilla) reader contract; the real backends run over loopback TCP with messages below 32 KiB."),
  "C03": dict(cat="model_checking", ref="§6 C03",
    technique="implementation-shaped TLA+ spec Downstream.tla (three critical sections of ReadDataPoints, alias tables, queue) model-checked by TLC; environment projections replayed on a real downstream against the in-memory broker; traces judged by the TLA+ monitor MonC03; metadata path modelled stage by stage in DownMeta.tla (per-source order, filter lists with repeated nodes), its scripts replayed on a real downstream",
    text="Design: OnceEach, InOrderSingleReader, ResolvedRight (alias forms incl. pre-registered and never-announced aliases) hold over all chunk sequences up to 3 chunks x 2 upstreams x 2 data ids x full/alias forms with arbitrary read timing. Code: TLC-simulated broker sequences (full/alias switch-over at any point, bogus aliases, pre-registered ids) and metadata from two source nodes are replayed; the k-th read must equal the k-th chunk sent (sequence number, points with checksums, upstream info, data ids) or be an error for a bogus alias; metadata per source in order with acks.",
